@@ -25,12 +25,14 @@ func New[T comparable]() *Notifier[T] {
 	}
 }
 
-func (v *Notifier[T]) removeListener(value T) {
+func (v *Notifier[T]) removeListener(value T, channel chan struct{}) {
 	v.mutex.Lock()
 	defer v.mutex.Unlock()
 
 	valueListeners, exists := v.listeners.Get(value)
-	if !exists {
+	if !exists || valueListeners.channel != channel {
+		// The listeners that shared the given channel were already notified or removed,
+		// the entry (if any) belongs to listeners that were created afterwards.
 		return
 	}
 	valueListeners.count--
@@ -50,7 +52,7 @@ func (v *Notifier[T]) Listener(value T) *Listener {
 	if valueListener, exists := v.listeners.Get(value); exists {
 		valueListener.count++
 		return newListener(valueListener.channel, func() {
-			v.removeListener(value)
+			v.removeListener(value, valueListener.channel)
 		})
 	}
 
@@ -58,7 +60,7 @@ func (v *Notifier[T]) Listener(value T) *Listener {
 	v.listeners.Set(value, &listener{msgProcessedChan, 1})
 
 	return newListener(msgProcessedChan, func() {
-		v.removeListener(value)
+		v.removeListener(value, msgProcessedChan)
 	})
 }
 
